@@ -269,12 +269,27 @@ func c17(c *ctx) {
 			return rs
 		})
 	}
+	type pshape struct {
+		sz    int
+		whole bool
+	}
+	var pshapes []pshape
 	for _, sz := range []int{0, 5, 126, 4096, 70000} {
-		sz := sz
-		trace(fmt.Sprintf("readmessage/%d", sz), func(r int) []result {
+		pshapes = append(pshapes, pshape{sz, false})
+	}
+	// payloads whose size is exactly a class of the byte pool (and its neighbours), in a single frame
+	for _, sz := range []int{64, 128, 256, 511, 512, 513, 1024, 2048, 4096, 32768, 65536} {
+		pshapes = append(pshapes, pshape{sz, true})
+	}
+	for _, ps := range pshapes {
+		sz, whole := ps.sz, ps.whole
+		trace(fmt.Sprintf("readmessage/%d/%v", sz, whole), func(r int) []result {
 			body := vh.PBytes(r+1, 0, sz)
 			stream := append(vh.BuildFrame(2, false, 0, true, [4]byte{1, 2, 3, 4}, body[:sz/2]), vh.BuildFrame(9, true, 0, true, [4]byte{5, 6, 7, 8}, []byte("ping-"+fmt.Sprint(r)))...)
 			stream = append(stream, vh.BuildFrame(0, true, 0, true, [4]byte{9, 9, 9, 9}, body[sz/2:])...)
+			if whole {
+				stream = vh.BuildFrame(2, true, 0, true, [4]byte{1, 2, 3, 4}, body)
+			}
 			msgs, err := wsutil.ReadMessage(bytes.NewReader(stream), ws.StateServerSide, nil)
 			if err != nil {
 				vh.Fatal("c17 readmessage: %v", err)
